@@ -475,7 +475,37 @@ def oracle13_eof(ctx, case, out, n_clients, answered_first):
             ctx.violation("pending-request-after-eof-got:" + str(r)[:40], case, observed=r, expected="its reply or EOFError", what="a request pending when the stream ended did not fail with EOFError")
 
 
+def in_f5_window(out, i):
+    """from the recorded events: the reply of client i was dispatched by ANOTHER thread, and client i acquired the receive lock (or
+    went to sleep behind a thread that did) after that thread's release and not after the dispatch had already made the result visible
+    to a loop test of i - i.e. i entered serve() between the other thread's release and its dispatch"""
+    q = out["seq_of"].get(i)
+    ev = out["events"]
+    disp = [k for k, e in enumerate(ev) if e[0] == "step" and len(e) > 3 and e[2] == "dispatch" and e[3] == q]
+    if not disp:
+        return False
+    k_disp = disp[0]
+    dispatcher = ev[k_disp][1]
+    if dispatcher == i:
+        return False
+    rel = [k for k in range(k_disp) if ev[k][0] == "step" and ev[k][1] == dispatcher and ev[k][2] == "release"]
+    if not rel:
+        return False
+    k_rel = rel[-1]
+    # i's last loop test before the dispatch found the result not ready (so it went on into serve) ...
+    tests = [k for k in range(k_disp) if ev[k][0] == "step" and ev[k][1] == i and ev[k][2] == "looptest"]
+    # ... and it entered serve's lock section (acquire attempt) after the dispatcher had read the frame
+    reads = [k for k in range(k_disp) if ev[k][0] == "step" and ev[k][1] == dispatcher and ev[k][2] == "read" and len(ev[k]) > 3 and ev[k][3] == q]
+    acq = [k for k, e in enumerate(ev) if e[0] == "step" and e[1] == i and e[2] == "acquire" and reads and k > reads[-1]]
+    return bool(tests) and bool(acq)
+
+
 def oracle14(ctx, case, out, n_clients):
+    if out["deadlock"]:
+        ctx.violation("deadlock", case, observed=out["deadlock"][:300], expected="no deadlock", what="all threads blocked with no deadline")
+        return
+    if out["errors"]:
+        ctx.violation("thread-raised", case, observed=out["errors"], expected="no exception", what="a thread raised")
     for i, d in out["late"].items():
         if d > 0:
             # classify by what the waiter was blocked in when the clock had to advance after its reply was dispatched
@@ -487,10 +517,13 @@ def oracle14(ctx, case, out, n_clients):
                     why = adv["blocked"][str(i)]
                     others_polling = any(v == "poll" for k, v in adv["blocked"].items() if k != str(i))
                     break
-            if why == "poll":
+            window = in_f5_window(out, i)
+            if why == "poll" and window:
                 sig = "waiter-in-poll-while-reply-dispatched-by-other-thread"
-            elif why == "cond-wait" and others_polling:
+            elif why == "cond-wait" and others_polling and window:
                 sig = "waiter-asleep-behind-polling-thread-after-reply-dispatched"
+            elif why in ("poll", "cond-wait") and not window:
+                sig = "waiter-late-outside-the-known-window:" + str(why)
             elif why == "cond-wait":
                 sig = "waiter-asleep-with-nobody-polling-after-reply-dispatched"
             else:
